@@ -17,6 +17,7 @@
 package pdf
 
 import (
+	"bufio"
 	"bytes"
 	"errors"
 	"fmt"
@@ -447,8 +448,9 @@ func doFormat(w io.Writer, obj Object, opt OutputOptions, needSep bool) (bool, e
 		// method 1: If the value is already known, we can just write it to the
 		// file.
 		if x.value != nil {
-			_, err := w.Write(x.value)
-			return true, err
+			// The value is formatted in place, so that strings are
+			// encrypted with the key of the object they are part of.
+			return doFormat(w, x.val, opt, false)
 		}
 
 		// method 2: If we can seek, write whitespace now and replace this with
@@ -459,6 +461,7 @@ func doFormat(w io.Writer, obj Object, opt OutputOptions, needSep bool) (bool, e
 		if pw, direct := w.(*posWriter); direct && pw == x.pdf.w && x.ref == 0 {
 			if _, ok := x.pdf.origW.(io.WriteSeeker); ok {
 				x.pos = append(x.pos, pw.pos)
+				x.posRef = append(x.posRef, pw.ref)
 				_, err := w.Write(bytes.Repeat([]byte{' '}, x.size))
 				return true, err
 			}
@@ -1113,11 +1116,17 @@ func IsDirect(obj Object) bool {
 // use the [Writer.NewPlaceholder] method.
 type Placeholder struct {
 	value []byte
+	val   Native
 	size  int
 
 	pdf *Writer
 	pos []int64
 	ref Reference
+
+	// posRef[i] is the object which pos[i] is part of.  This is needed to
+	// derive the key when the value contains strings and the file is
+	// encrypted.
+	posRef []Reference
 }
 
 func (x *Placeholder) isNative() {}
@@ -1170,9 +1179,32 @@ func (x *Placeholder) Set(val Native) error {
 	}
 	x.value = make([]byte, buf.Len())
 	copy(x.value, buf.Bytes())
+	x.val = val
 
 	if len(x.pos) == 0 {
 		return nil
+	}
+
+	// In an encrypted file, strings inside the value must be encrypted with
+	// the key of the object each copy is part of.
+	texts := make([][]byte, len(x.pos))
+	for i := range x.pos {
+		texts[i] = x.value
+		if x.pdf.w.enc == nil {
+			continue
+		}
+		out := &bytes.Buffer{}
+		fw := &posWriter{w: bufio.NewWriter(out), ref: x.posRef[i], enc: x.pdf.w.enc}
+		_, err := doFormat(fw, val, 0, false)
+		if err == nil {
+			err = fw.Flush()
+		}
+		if err != nil {
+			return fmt.Errorf("Placeholder.Set: %w", err)
+		} else if out.Len() > x.size {
+			return errors.New("Placeholder: replacement text too long")
+		}
+		texts[i] = out.Bytes()
 	}
 
 	// Replace all previously written placeholders with the final value.
@@ -1182,12 +1214,12 @@ func (x *Placeholder) Set(val Native) error {
 	if err != nil {
 		return err
 	}
-	for _, pos := range x.pos {
+	for i, pos := range x.pos {
 		_, err = fill.Seek(pos, io.SeekStart)
 		if err != nil {
 			return err
 		}
-		_, err = fill.Write(x.value)
+		_, err = fill.Write(texts[i])
 		if err != nil {
 			return err
 		}
@@ -1198,6 +1230,7 @@ func (x *Placeholder) Set(val Native) error {
 	}
 
 	x.pos = nil
+	x.posRef = nil
 	return nil
 }
 
